@@ -169,3 +169,45 @@ Definition obs_maint (ops : list mop2) (textx : option str) : json :=
 
 Definition check_maint (c : (list mop2 * option str) * json) : bool :=
   let '((ops, textx), o) := c in json_eqb (obs_maint ops textx) o.
+
+(* ---- stream foreign : texts NOT produced by the encoders, through every decoder; then re-encode and decode again ---- *)
+Inductive fkind :=
+| FKField (i : nat) | FKTags (ok : list str) | FKGateway | FKPath (ero : bool) | FKMaint | FKJData (idx : nat).
+
+Definition fobs {A} (view : A -> json) (decode : option str -> res (option A)) (encode : A -> res (option str))
+           (t : str) : json :=
+  match decode (Some t) with
+  | Ok (Some y) => match encode y with
+                   | Ok ot => JArr [view y; jopt JStr ot; jres (jopt view) (decode ot)]
+                   | Err e => JArr [view y; jerr e]
+                   end
+  | Ok None => JArr [JNull]
+  | Err e => JArr [jerr e]
+  end.
+
+Definition res_some (r : res str) : res (option str) := match r with Ok s => Ok (Some s) | Err e => Err e end.
+
+Definition obs_foreign (k : fkind) (t : str) : json :=
+  match k with
+  | FKField i => match nth_error gen_classes i with
+                 | Some c => fobs JObj (from_json VA c) (fun y => Ok (Some (to_json c y))) t
+                 | None => JNull
+                 end
+  | FKTags ok => let VT := fun s => existsb (str_eqb s) ok in
+                 fobs jstrs (tags_from_json VT) (fun l => Ok (Some (tags_to_json l))) t
+  | FKGateway => fobs (fun g : option obj => JArr [JStr (S"gw"); jopt JObj g]) (gw_from_json VA)
+                      (fun g => Ok (gw_to_json g)) t
+  | FKPath ero => fobs pinfo_json (pi_from_json ero) (fun p => res_some (pi_to_json p)) t
+  | FKMaint => fobs minfo_json (mi_from_json VISOA) (fun m => res_some (mi_to_json m)) t
+  | FKJData idx => match nth_error jsondata_classes idx with
+                   | Some (_, mx, exn) =>
+                     fobs (fun x : str => JArr [JStr x; jopt jid (jd_data x)])
+                          (fun ot => match ot with
+                                     | Some s => match jd_make mx exn (JDText s) with Ok x => Ok (Some x) | Err e => Err e end
+                                     | None => Ok None end)
+                          (fun x => Ok (Some (jd_json x))) t
+                   | None => JNull
+                   end
+  end.
+
+Definition check_foreign (c : (fkind * str) * json) : bool := json_eqb (obs_foreign (fst (fst c)) (snd (fst c))) (snd c).
